@@ -500,6 +500,8 @@ def warmup(mod=None):
     import inspect
     import sigtools
     from sim import worlds, faults
+    from sim import sutstate as _sut
+    _sut.capture(baseline='import')     # before anything is retrieved in this process
     for t in sorted(worlds.TEMPLATES):
         for s in (0, 1, 2):
             ch = Choices(seed=derive_seed('warmup', t, s))
